@@ -14,7 +14,8 @@ def main():
     quick = ck.tier == 'quick'
     P = ['C08', 'CRASH']
     dims = dict(missing='sym', allow_missing=[False, True], out_sim_score=[True, False], kmin=1, k=1,
-                props=P, validate_every=40, index_labels=[None, ([7, 7, 9], ['a', 'b', 'a'])])
+                props=P, validate_every=40, index_labels=[None, ([7, 7, 9], ['a', 'b', 'a'])],
+                extra_none=[True])
     if quick:
         shapes = [dict(nl=2, nr=2, n_jobs=[1, 2])]
         outs = [[(None, None)], [(['x'], ['y', 'attr'])]]
